@@ -10,7 +10,7 @@ This is lead-side tooling for the seeded-change experiments; registered checks n
 """
 import os, subprocess, sys, json, shutil, time
 
-MUT = "/tmp/mut"
+MUT = os.environ.get("MUT_DIR", "/tmp/mut")
 
 
 def sh(cmd, **kw):
@@ -29,6 +29,9 @@ def main():
     patch = os.path.abspath(args[0]) if args[0] != "-" else None
     ids = args[1:]
     os.makedirs(MUT, exist_ok=True)
+    import fcntl
+    lock = open(os.path.join(MUT, ".lock"), "w")
+    fcntl.flock(lock, fcntl.LOCK_EX)
     sh(f"rsync -a --delete --exclude target --exclude .git /repo/ {MUT}/repo/")
     if patch:
         p = sh(["git", "apply", "--unsafe-paths", "--directory", f"{MUT}/repo", patch], cwd="/")
